@@ -201,6 +201,25 @@ def run(ctx):
             if found <= 4:
                 ctx.violation("fault_point", {"mode": "evalprog", "program": text_, "sexp": s, "fault": {"callback_invocation": k, "kind": kind},
                                               "observed": o, "expected": bad})
+    # the repository's own unit-test scripts (every construct of the language, incl. those outside the model): whatever a script does and
+    # however it ends, the Stack_Holder must be back in its resting shape afterwards
+    import glob
+    uexe, ulog = C.harness_build("unitscript")
+    files = sorted(glob.glob(os.path.join(C.REPO, "unittests", "*.chai")))
+    if uexe is None:
+        ctx.oblige("harness build (unitscript)", False, (ulog or "")[-800:])
+    else:
+        with ctx.timer("unit_corpus"):
+            uo, _ = C.run_harness_resilient(uexe, [], ["1 opt %s" % f.encode().hex() for f in files], timeout=900)
+        for f, o in zip(files, uo):
+            sh = o.split(" shape=")[1].strip() if " shape=" in o else "missing"
+            ctx.hist("unit_script_outcomes", " ".join(o.split(" ")[:1])[:30])
+            if sh != "[1]/1/0":
+                found += 1
+                ctx.violation("input", {"mode": "unitscript", "script": f, "observed": o[:300], "expected": "shape=[1]/1/0 after the script, however it ended",
+                                        "how_to_replay": "printf '1 opt %s\\n' | build/harness/unitscript/<bin>" % f.encode().hex()})
+        ctx.count("evaluations", len(files))
+        ctx.cov["unit_scripts"] = len(files)
     labels = ["fault@%d/%s :: %s" % (k, kind, text_[:400]) for (s, text_, k, kind) in meta]
     def notags(x):
         return "\t".join(" ".join(w for w in part.split(" ") if not w.startswith("tags=")) for part in x.split("\t"))
